@@ -7,7 +7,7 @@
    suppress_spec), Model/LifeCacheSpec.v (ka_spec), Model/LifeResp.v (resp_spec). *)
 From Coq Require Import List NArith Bool.
 From Mdns Require Import Res Bytes Rec Life LifeSpec LifeCache LifeCacheSpec LifeResp
-  LifeProofs LifeCacheProofs LifeRespProofs.
+  LifeProofs LifeCacheProofs LifeRespProofs LifeKaHistProofs.
 Import ListNotations.
 Open Scope N_scope.
 
@@ -109,6 +109,25 @@ Theorem C10_known_answer_listed_if : forall (b : tbucket) now e,
   In (c_id e, t_ttl (c_t e) - (now - t_created (c_t e)) / 1000) (ka_spec b now).
 Proof. exact ka_spec_complete. Qed.
 
+(* The same over HISTORIES of the daemon-level model (the model C11_daemon_level_refinement is
+   about): in every run, from every reachable cache, every query the model sends in an
+   iteration - retransmitted browse / resolve queries and refresh queries alike - lists as known
+   answers exactly ka_of_spec of the cache as it is once that iteration's records have been
+   taken in: for each question the shared records cached under the question's key that have
+   not passed half of their (possibly renewed) lifetime, each with its remaining TTL. *)
+Theorem C10_history_known_answers : forall cfg steps obs,
+  Forall step_ok steps -> model_run cfg steps = Ok obs ->
+  Forall2 (fun s o => exists c c0, reach cfg c /\ ingest trec trec_ops c (ss_now s) (ss_recs s) = Ok c0 /\
+             Forall (fun q => qd_answers q = ka_of_spec c0 (qd_questions q) (ss_now s)) (io_queries o)) steps obs.
+Proof. exact model_run_known_answers. Qed.
+
+Theorem C10_reachable_queries_known_answers : forall cfg c s c' o,
+  reach cfg c -> step_ok s ->
+  sim_iter trec trec_ops cfg c (ss_now s) (ss_nsb s) (ss_nsh s) (ss_recs s) = Ok (c', o) ->
+  exists c0, ingest trec trec_ops c (ss_now s) (ss_recs s) = Ok c0 /\
+             Forall (fun q => qd_answers q = ka_of_spec c0 (qd_questions q) (ss_now s)) (io_queries o).
+Proof. exact reach_queries_good. Qed.
+
 (* Full statement "never one with less than half of its lifetime left" is FALSE of the code
    (known finding C10-ka-shortened-record): a shared record flushed to expire in one second is
    still listed with the TTL computed from created/ttl (here: 1 s left of 10, listed with TTL 8). *)
@@ -150,6 +169,17 @@ Example C10_example_srv_without_flush_bit :
     [(mkId ex_name TY_SRV 1 false (RSrv 0 0 80 ex_host) 2, 100)] = Some ([sv_txt ex_svc], []).
 Proof. exact resp_srv_example. Qed.
 
+(* a browse of "t.": two shared PTR records (TTL 10 and 30) arrive; the browse query retransmitted
+   3.9 s later lists both with their remaining TTLs, the one 5.9 s later only the second *)
+Example C10_example_history :
+  let p (k ttl : N) := (mkId [116;46] TY_PTR 1 false (RPtr [105; k; 46]) 2, ttl) in
+  model_run (mkCfg (Some [116;46]) None)
+    [ mkStep 1000000 1 0 [p 1 10; p 2 30]; mkStep 1003900 1 0 []; mkStep 1005900 1 0 [] ]
+  = Ok [ mkIO [mkQD [([116;46], TY_PTR)] [(fst (p 2 0), 30); (fst (p 1 0), 10)]] [] [];
+         mkIO [mkQD [([116;46], TY_PTR)] [(fst (p 2 0), 27); (fst (p 1 0), 7)]] [] [];
+         mkIO [mkQD [([116;46], TY_PTR)] [(fst (p 2 0), 25)]] [] [] ].
+Proof. vm_compute. reflexivity. Qed.
+
 Example C10_example_known_answers :
   let p (k : N) fl := mkId [116;46] TY_PTR 1 fl (RPtr [105; k; 46]) 0 in
   known_answers trec trec_ops
@@ -174,6 +204,8 @@ Print Assumptions C10_unsuppressed_brings_all.
 Print Assumptions C10_known_answers_spec.
 Print Assumptions C10_known_answer_listed_only_if.
 Print Assumptions C10_known_answer_listed_if.
+Print Assumptions C10_history_known_answers.
+Print Assumptions C10_reachable_queries_known_answers.
 Print Assumptions C10_known_answers_shortened_refuted.
 Print Assumptions C10_update_ttl_panics_iff.
 Print Assumptions C10_update_ttl_safe_under_halflife.
